@@ -22,7 +22,7 @@ try:
 except Exception:
     LOCALS = {}
 
-PURE_FUNCS = {"get_cache", "get_store", "state_types_registry", "command_registry", "quote", "unquote", "join_key", "key_name", "key_extension", "len", "type", "isinstance", "str", "bool", "int", "float", "repr", "tuple", "list", "dict", "set", "sorted", "min", "max", "any", "all"}
+PURE_FUNCS = {"get_vars", "get_cache", "get_store", "state_types_registry", "command_registry", "quote", "unquote", "join_key", "key_name", "key_extension", "len", "type", "isinstance", "str", "bool", "int", "float", "repr", "tuple", "list", "dict", "set", "sorted", "min", "max", "any", "all"}
 # methods without side effects in this code base (path constructors, printers, accessors)
 PURE_METHODS = {"clone", "copy", "as_dict", "get_metadata", "get_bytes", "decode", "as_bytes", "from_bytes", "listdir", "listdir_keys",
                 "to_root_key", "translate_key", "route_to", "is_supported", "read_only", "parent", "with_name", "joinpath", "path_for_key", "metadata_path_for_key", "to_path", "encode", "get", "segment_name", "is_volatile", "is_dir", "contains",
